@@ -194,6 +194,34 @@ def run(prop, tier, seed, replay=None):
     evaluations += lines_b * nprobe
     report(V, badb, pf, u, "history")
 
+    # (c) tag-value geometry (universe qv): every self-derived probe (each event's id / author / author+kind / each of its
+    # tag values alone, with its author, with its kind) plus value pairs, after every call of a few fixed histories
+    import filters as FL
+    vpath = S.universe_path("qv")
+    uv = json.load(open(vpath))
+    pv = FL.probe_filters(uv)
+    sidx = {bytes.fromhex(x): i for i, x in enumerate(uv["strs"])}
+    t_ = sidx[b"t"]
+    vals = [sidx[k] for k in (b"abc", b"abc\x00", b"v" * 182 + b"1", b"v" * 182 + b"2", b"v" * 182, b"ab")]
+    for i in range(len(vals)):
+        for j in range(len(vals)):
+            if i != j:
+                pv.append(FL.flt(tags=[(t_, [vals[i], vals[j]])]))
+                pv.append(FL.flt(authors=[1, 2], tags=[(t_, [vals[i], vals[j]])], limit=2))
+    pv.append(FL.flt(tags=[(sidx[b"u"], [sidx[b"abc"]])]))
+    pv.append(FL.flt(tags=[(t_, [sidx[b"abc"]]), (sidx[b"p"], [uv["pk_sidx"][1]])]))
+    vfp = os.path.join(wd, "probes_qv.json")
+    json.dump(pv, open(vfp, "w"))
+    nv = uv["n"]
+    vh_ = [[{"k": "store", "a": i} for i in range(1, nv + 1)],
+           [{"k": "store", "a": i} for i in range(nv, 0, -1)] + [{"k": "remove", "a": 1}, {"k": "reopen", "a": 0}, {"k": "rebuild", "a": 0}],
+           [{"k": "store", "a": i} for i in (2, 4, 5, 7, 9, 1, 3)] + [{"k": "remove", "a": 2}, {"k": "store", "a": 8}, {"k": "store", "a": 6}]]
+    tfc = S.run_storedrv2(bindir, vpath, vh_, wd, "qc", vfp, no_probe=False, shards=3)
+    badc, lines_c = judge_q(vpath, tfc, vfp)
+    C.log("[C05] (c) value geometry: %d histories, %d lines x %d probes, %d failing answers" % (len(vh_), lines_c, len(pv), len(badc)))
+    evaluations += lines_c * len(pv)
+    report(V, badc, pv, uv, "value geometry")
+
     plans = {}
     for f in filters:
         k = plan_of(f) + ":" + feature_of(f)
